@@ -105,6 +105,9 @@ type Schema struct {
 }
 
 func NewSchemaRef(schema *openapi3.SchemaRef, components Sourcer[Schema], opts SchemaOptions) (Ref[Schema], error) {
+	if schema == nil {
+		return nil, fmt.Errorf("schema is not set")
+	}
 	if schema.Ref != "" {
 		v, ok := components.Get(schema.Ref)
 		if !ok {
